@@ -73,6 +73,8 @@ def register(add, tu, repo, bdir):
     srcfacts_c15.register(add, tu)
     import srcfacts_c12
     srcfacts_c12.register(add, tu, repo)
+    import srcfacts_buffers
+    srcfacts_buffers.register(add, tu, repo)
     register_constraints(add, tu)
     register_ctors(add, tu)
     register_legacy(add, tu, repo)
